@@ -2,6 +2,7 @@
    This file contains only the property theorems: each is closed by [exact] of a lemma proved
    elsewhere, its statement is pinned by [Check], and its axioms are printed by the audit. *)
 From Coq Require Import List.
+From TS Require Gen.StrokerFields.
 From TS Require Import Base.F32 Model.Rect Model.PathBuilder Model.Conic Model.Transform Model.PathOps Proofs.PathBuilderStruct Proofs.RectPoints.
 Import ListNotations.
 
@@ -44,6 +45,12 @@ Theorem C14_transform_wf :
 Proof. exact path_transform_wf. Qed.
 
 (* Path::clear + rebuild behaves like a new builder *)
+(* PathBuilder::default() (the fourth way to obtain an empty builder) writes the state of PathBuilder::new(), as
+   re-extracted from the source on every run (a derived Default would give move_to_required = false), and that is the
+   model's default_builder *)
+Theorem C14_default_is_new :
+  TS.Gen.StrokerFields.builder_default_state = TS.Gen.StrokerFields.builder_new_state /\ default_builder = new_builder.
+Proof. split; [vm_compute; reflexivity | reflexivity]. Qed.
 Theorem C14_path_clear_is_new : forall p, path_clear p = new_builder.
 Proof. exact path_clear_is_new. Qed.
 
